@@ -49,7 +49,7 @@ QUICK_SHAPES = {
     "cisd_faster": [(4, (2, 2)), (3, (2, 2))],
     "CISD": [(3, (2, 2)), (4, (2, 2))],
     "CISD_THC": [(3, (1, 1)), (4, (2, 2))],
-    "ucisd": [(3, (2, 1)), (4, (2, 2)), (3, (2, 0))],
+    "ucisd": [(3, (2, 1)), (4, (2, 2)), (3, (2, 0)), (4, (2, 1))],  # (4,(2,1)): alpha doubles exist while the beta channel has none
     "UCISD": [(3, (2, 1)), (4, (2, 1))],
     "GCISD": [(3, (2, 1)), (3, (1, 1))],
 }
